@@ -19,7 +19,7 @@ from typing import Any, ClassVar, TypeAlias, Union, get_args, get_origin, get_ty
 
 from typing_extensions import Self
 
-from xdsl.utils.exceptions import ArgSpecParseError
+from xdsl.utils.exceptions import ArgSpecParseError, ParseError
 from xdsl.utils.lexer import Input, Span, Token
 from xdsl.utils.mlir_lexer import StringLiteral
 
@@ -63,11 +63,26 @@ class ArgSpec:
             case bool():
                 return str(arg).lower()
             case str():
-                return f'"{arg}"'
+                return f'"{ArgSpec._escape_string(arg)}"'
             case int():
                 return str(arg)
             case float():
                 return str(arg)
+
+    @staticmethod
+    def _escape_string(arg: str) -> str:
+        """
+        Escape the characters that cannot appear verbatim in a string literal.
+        """
+        res = ""
+        for char in arg:
+            if char == "\\" or char == '"':
+                res += "\\" + char
+            elif ord(char) < 0x20 or ord(char) == 0x7F:
+                res += f"\\{ord(char):02X}"
+            else:
+                res += char
+        return res
 
     @staticmethod
     def _spec_parameter_list_type_str(name: str, arg: ParameterListType) -> str:
@@ -293,7 +308,10 @@ _lexer_rules: list[tuple[re.Pattern[str], SpecTokenKind]] = [
     (re.compile(r"[0-9]+[A-Za-z_-]+[A-Za-z0-9_-]*"), SpecTokenKind.IDENT),
     (re.compile(r"[-+]?[0-9]+(\.[0-9]*([eE][-+]?[0-9]+)?)?"), SpecTokenKind.NUMBER),
     (re.compile(r"[A-Za-z0-9_-]+"), SpecTokenKind.IDENT),
-    (re.compile(r'"(\\[nfvtr"\\]|[^\n\f\v\r"\\])*"'), SpecTokenKind.STRING_LIT),
+    (
+        re.compile(r'"(\\[nfvtr"\\]|\\[0-9A-Fa-f]{2}|[^\n\f\v\r"\\])*"'),
+        SpecTokenKind.STRING_LIT,
+    ),
     (re.compile(r'\[(\\[nfvtr"\\]|[^\n\f\v\r\]\\])*\]'), SpecTokenKind.MLIR_PIPELINE),
     (re.compile(r"\{"), SpecTokenKind.L_BRACE),
     (re.compile(r"}"), SpecTokenKind.R_BRACE),
@@ -534,11 +552,14 @@ def _parse_parameter_value_element(lexer: PipelineLexer) -> ParameterType:
     # valid value elements are quoted strings, numbers, true|false, and "ident" type
     # strings
     match lexer.lex():
-        case Token(kind=SpecTokenKind.STRING_LIT, span=span):
+        case Token(kind=SpecTokenKind.STRING_LIT, span=span) as token:
             # string literals are converted to unescaped strings
             str_token = StringLiteral.from_span(span)
             assert str_token is not None
-            return str_token.string_contents
+            try:
+                return str_token.string_contents
+            except (ParseError, UnicodeDecodeError) as e:
+                raise ArgSpecParseError(token, "Invalid string literal") from e
         case Token(kind=SpecTokenKind.NUMBER, span=span):
             # NUMBER is both float and int
             # if the token contains a `.` it's a float
